@@ -160,7 +160,9 @@ func TestVerifBoundedLineMode(t *testing.T) {
 			}
 		}
 		// inside an unterminated string and block comment
-		for _, extra := range []string{"x = \"abc", "y = 1 /* unterminated"} {
+		for _, extra := range []string{"x = \"abc", "y = 1 /* unterminated",
+			// the text of the open string / comment is not program text: whatever it contains, more input is asked for
+			"q = `SELECT a, b", "q = `SELECT a, b\n FROM t WHERE (", "s = \"if ( {", "s = `\n}\n)`[", "z = 1 /* ) } ] \n \"", "m = {\"a\": `x y z\n", "f(`a b`, `c d"} {
 			evals++
 			_, errs, cont, _ := c15Parse(extra, true)
 			if !cont || len(errs) > 0 {
